@@ -36,7 +36,7 @@ def gen_kw(rng, kind, allow_variable=True):
         if rng.random() < 0.35:
             a["normalize"] = rng.random() < 0.7
         if with_power:
-            a["power"] = rng.choice([0.5, 0.5, 0.25, 0.75])
+            a["power"] = rng.choice([0.5, 0.5, 0.25, 0.75, 1.0])
         kargs.append(a)
     # with several windows the constructor wants one kernel / window function per window
     kw = {"window_radii": radii if (nwin > 1 or rng.random() < 0.5) else radii[0],
@@ -50,7 +50,7 @@ def gen_kw(rng, kind, allow_variable=True):
     elif r < 0.7 or with_power:
         kw["kernel_args"] = kargs[0]
     if rng.random() < 0.4:
-        kw["mix_weights"] = [rng.choice([0.5, 1.0, 2.0, 0.25, 3.0]) for _ in range(nwin)]
+        kw["mix_weights"] = [rng.choice([0.5, 1.0, 2.0, 0.25, 3.0, 0.0, 1024.0]) for _ in range(nwin)]
     if allow_variable and rng.random() < 0.2:
         kw["window_functions"] = "variable" if nwin == 1 else ["variable"] * nwin
         kw["window_radii"] = [max(1, x) for x in radii] if isinstance(kw["window_radii"], list) else max(1, radii[0])
@@ -69,7 +69,116 @@ def gen_seq(rng, alpha, maxlen, with_x):
     return [rng.choice(pool) for _ in range(L)]
 
 
+BIG_RADII = [32767, 32768, 40000, 65535, 65536, 70000, 2 ** 31 - 1, 2 ** 31, 2 ** 32 + 7]
+HIST_ALPHA = "abcdefgh"
+P_HISTORY, P_THEN = 0.4, 0.3
+
+
+def apply_boundaries(rng, case):
+    """Boundary values of the numeric parameters relative to the corpus: radii 0, 1, len-1, len, len+1 and far beyond
+    any sequence (the int16/int32 limits on both sides); kernel offsets at / beyond the window."""
+    kw = case["kw"]
+    variable = listify(kw.get("window_functions", "fixed"), 1)[0] == "variable"
+    L = max([len(d) for d in case["docs"]] or [0])
+    if not variable and rng.random() < 0.3:
+        # (variable radii are a float formula of the frequencies: kept at small radii, see expected_radii)
+        pool = [0, 1, max(L - 1, 0), L, L + 1] + BIG_RADII
+        rad = kw["window_radii"]
+        if isinstance(rad, list):
+            kw["window_radii"] = [rng.choice(pool) if rng.random() < 0.7 else x for x in rad]
+        else:
+            kw["window_radii"] = rng.choice(pool)
+    rads = listify(kw["window_radii"], 1)
+    if max(rads) > 1000:
+        kw["coo_initial_memory"] = "64k"        # the triple buffers are sized proportionally to the radius
+    ka = kw.get("kernel_args")
+    if ka and rng.random() < 0.25:
+        for w, a in enumerate([ka] if isinstance(ka, dict) else ka):
+            R = min(rads[min(w, len(rads) - 1)], 50)
+            a["offset"] = rng.choice([R, R + 1, max(R - 1, 0), min(L, 50), 40])
+
+
+def gen_docs_like(rng, kind, pool, nd, gap_scale=1, runs_of=None):
+    """A corpus of the given kind over the token pool; runs_of: a token that also appears in runs of three
+    (adjacent removed tokens: the all-mask n-gram)."""
+    def seq(L):
+        s = [rng.choice(pool) for _ in range(L)]
+        if runs_of is not None and L >= 3 and rng.random() < 0.6:
+            a = rng.randrange(L - 2)
+            s[a:a + 3] = [runs_of] * 3
+        return s
+    docs = []
+    for _ in range(nd):
+        toks = seq(rng.choice([1, 2, 3, 5, 8, 10]))
+        if kind in ("token", "ngram"):
+            docs.append(toks)
+        elif kind == "timed":
+            t, d = rng.choice([0, 5]), []
+            for tok in toks:
+                t += rng.choice([0, 1, 2, 4, 8, 12]) * gap_scale
+                d.append([tok, t])
+            docs.append(d)
+        else:
+            docs.append([[tok] + [rng.choice(pool) for _ in range(rng.choice([0, 0, 1, 2]))] for tok in toks[:5]])
+    return docs
+
+
+def gen_history(rng, case):
+    """The estimator's past: another corpus (other vocabulary size, other time scale, tokens that get removed/masked --
+    also in runs --, other n-grams), fitted on the same object, then used for transform."""
+    kw = case["kw"]
+    pool = rng.sample(HIST_ALPHA, rng.choice([1, 2, 3, 6, 8]))
+    removed = sorted(kw.get("excluded_tokens") or [])
+    runs_of = None
+    if removed:
+        runs_of = rng.choice(removed)
+        pool = pool + [runs_of] * 2
+    if removed and rng.random() < 0.3:
+        pool = pool[:1] + [runs_of] * 3          # a small past, mostly removed tokens (few rows, among them the all-mask one)
+    h = {"docs": gen_docs_like(rng, case["kind"], pool, rng.choice([1, 2, 3]), rng.choice([1, 16, 1024]), runs_of),
+         "how": rng.choice(["fit", "fit_transform"])}
+    if case["kind"] == "timed":
+        h["shift"] = rng.choice([0.0, 1e3, 1.6e9])
+    if rng.random() < 0.6:
+        h["transform"] = gen_docs_like(rng, case["kind"], pool + ["q"], rng.choice([1, 2]), 1, runs_of)
+    return h
+
+
+def gen_then(rng, case):
+    """A later transform with the fitted estimator: the training corpus itself or another one (unseen tokens, removed
+    tokens), optionally after an unrelated transform call."""
+    toks = sorted(set(t for d in tokens_of(case) for t in d))
+    if not toks:
+        return None
+    t = {"docs": "same"}
+    if rng.random() < 0.6:
+        pool = toks + ["q"]
+        first = [d for d in case["docs"] if len(d)][:1]
+        t["docs"] = [list(x) for x in first] + gen_docs_like(rng, case["kind"], pool, rng.choice([1, 2]), rng.choice([1, 4]))
+    if case["kind"] == "timed":
+        t["shift"] = case.get("shift", 0.0) if t["docs"] == "same" else rng.choice([0.0, 1.6e9])
+    if rng.random() < 0.4:
+        t["ignored"] = gen_docs_like(rng, case["kind"], toks + ["q"], 1, 16)
+    return t
+
+
+def add_call_history(rng, case, p_hist=P_HISTORY, p_then=P_THEN):
+    if rng.random() < p_hist:
+        case["history"] = gen_history(rng, case)
+    if rng.random() < p_then:
+        t = gen_then(rng, case)
+        if t:
+            case["then"] = t
+    return case
+
+
 def gen_case(rng, kind=None):
+    c = gen_case_plain(rng, kind)
+    apply_boundaries(rng, c)
+    return add_call_history(rng, c)
+
+
+def gen_case_plain(rng, kind=None):
     kind = kind or rng.choice(["token", "token", "token", "ngram", "timed", "multi"])
     kw = gen_kw(rng, kind)
     alpha = ALPHA[:rng.randint(1, 5)]
@@ -141,7 +250,11 @@ def plan_of(case):
     excl = set(kw.get("excluded_tokens") or [])
     mask_string = kw.get("mask_string")
     flat = [t for d in tokens_of(case) for t in d]
-    kept = sorted(set(t for t in flat if t not in excl))
+    mn, mx = kw.get("min_occurrences"), kw.get("max_occurrences")      # (used by C14's family stream, not for n-grams)
+    cnt = {}
+    for t in flat:
+        cnt[t] = cnt.get(t, 0) + 1
+    kept = sorted(t for t in cnt if t not in excl and (mn is None or cnt[t] >= mn) and (mx is None or cnt[t] <= mx))
     vocab = {t: i for i, t in enumerate(kept)}
     if not flat or not kept and (mask_string is None or listify(kw.get("window_functions", "fixed"), 1)[0] == "variable"):
         return {"error": "ValueError"}      # nothing to count (variable radii of an empty frequency table: undefined)
@@ -155,18 +268,20 @@ def plan_of(case):
         out = []
         for it in seq:
             t = get(it)
-            if t in vocab and t not in excl:
+            if t in vocab and t not in excl and t != mask_string:
                 out.append(put(it, vocab[t]))
             elif mask_id is not None:
                 out.append(put(it, mask_id))
         return out
     k = case["kind"]
-    if k in ("token", "ngram"):
-        docs = [ridx(d) for d in case["docs"]]
-    elif k == "timed":
-        docs = [ridx(d, lambda it: it[0], lambda it, i: (i, it[1])) for d in case["docs"]]
-    else:
-        docs = [[ridx(ms) for ms in d] for d in case["docs"]]
+
+    def reindex(raw_docs):
+        if k in ("token", "ngram"):
+            return [ridx(d) for d in raw_docs]
+        if k == "timed":
+            return [ridx(d, lambda it: it[0], lambda it, i: (i, it[1])) for d in raw_docs]
+        return [[ridx(ms) for ms in d] for d in raw_docs]
+    docs = reindex(case["docs"])
     # per-window parameters, then the orientation expansion (directional = [before, after])
     radii_in = kw.get("window_radii", 5)
     radii = listify(radii_in, 1)
@@ -188,7 +303,7 @@ def plan_of(case):
             for t, i in vocab.items():
                 labels[("pre_" if rev else "post_") + str(w) + "_" + str(t)] = i + kblk * n
     p = {"vocab": vocab, "n": n, "docs": docs, "blocks": blocks, "labels": labels, "mask_id": mask_id, "nullify": nullify,
-         "variable": listify(kw.get("window_functions", "fixed"), 1)[0] == "variable", "kind": k}
+         "variable": listify(kw.get("window_functions", "fixed"), 1)[0] == "variable", "kind": k, "reindex": reindex}
     # rows
     if k == "ngram":
         size = int(kw.get("ngram_size", 2))
@@ -217,6 +332,15 @@ def plan_of(case):
     return p
 
 
+def plan_then(case, p):
+    """The plan of a later transform(Y): fitted vocabulary, n-gram rows, radii and mean gap; Y re-indexed (unseen and
+    removed tokens are deleted, or replaced by the mask)."""
+    t = case["then"]
+    q = dict(p)
+    q["docs"] = p["docs"] if t["docs"] == "same" else p["reindex"](t["docs"])
+    return q
+
+
 def expected_radii(p, impl_radii):
     """Per-block radius tables.  fixed: exact.  variable: the implementation's table is accepted when it agrees with
     the real-valued formula R*f^(p-1)/sum(f^p) rounded half-even (entries within 1e-6 of a tie are not judged)."""
@@ -231,6 +355,10 @@ def expected_radii(p, impl_radii):
             elif p["nullify"] and p["mask_id"] is not None:
                 tab[p["mask_id"]] = 0
             out.append(tab)
+            if impl_radii is not None and (bi >= len(impl_radii) or list(impl_radii[bi]) != tab):
+                problems.append("fixed radius table of block %d: impl %s, expected %s (radius %d for every row%s)"
+                                % (bi, str(impl_radii[bi] if bi < len(impl_radii) else None)[:120], str(tab)[:120], b["R"],
+                                   ", 0 for the nullified mask" if 0 in tab and b["R"] else ""))
             continue
         f = [float(x) for x in p["freq"]]
         pw = 0.75
@@ -274,6 +402,31 @@ def timed_weight(b, delta_ticks, delta_mean):
     return F(float(b["power"]) ** x)
 
 
+class Exactness:
+    """Set as MON while a SPEC is evaluated: records whether every intermediate value is a dyadic rational small
+    enough for the float64 kernel stage (v64) and the float32 matrix stage (v32: multiples of 2^-10 below 2^12, so
+    every partial sum of non-negative terms, in any order, fits the 24-bit significand).  IEEE operations whose exact
+    result is representable do not round, so on such a trace the implementation's floats equal the exact fractions."""
+    def __init__(self):
+        self.ok = True
+
+    def v64(self, x):
+        d = F(x).denominator
+        if d & (d - 1) or d > 2 ** 20 or abs(x) >= 2 ** 20:
+            self.ok = False
+
+    def v32(self, x):
+        d = F(x).denominator
+        if d & (d - 1) or d > 2 ** 10 or abs(x) >= 2 ** 12:
+            self.ok = False
+
+    def fail(self):
+        self.ok = False
+
+
+MON = None
+
+
 def occ_contrib(M, n, row, per_block, nw):
     """per_block: list of dicts slot -> (context token, weight incl. mix).  Adds val = w/total for val > 0."""
     tot = F(1)
@@ -284,6 +437,8 @@ def occ_contrib(M, n, row, per_block, nw):
     for i, blk in enumerate(per_block):
         for ctx, w in blk.values():
             v = w / tot
+            if MON is not None:
+                MON.v32(v)
             if v > 0:
                 M[(row, ctx + i * n)] = M.get((row, ctx + i * n), F(0)) + v
                 if v.denominator > M.get("maxden", 1):
@@ -291,11 +446,20 @@ def occ_contrib(M, n, row, per_block, nw):
 
 
 def norm_block(b, raw):
+    if MON is not None:
+        if b["kind"] == "geometric" and b["power"].numerator != 1:
+            MON.fail()            # pow() is only relied upon for powers of two
+        for _, v in raw.values():
+            MON.v64(v)
     if b["norm"]:
         s = sum((v for _, v in raw.values()), F(0))
         if s > 0:
             raw = {q: (c, v / s) for q, (c, v) in raw.items()}
-    return {q: (c, b["mix"] * v) for q, (c, v) in raw.items()}
+    out = {q: (c, b["mix"] * v) for q, (c, v) in raw.items()}
+    if MON is not None:
+        for _, v in list(raw.values()) + list(out.values()):
+            MON.v64(v)
+    return out
 
 
 def occurrences(p, radii):
@@ -326,6 +490,8 @@ def occurrences(p, radii):
                             v = F(0)
                         elif kind == "timed":
                             v = timed_weight(b, abs(d[q][1] - d[anchor][1]), p["delta_mean"])
+                            if MON is not None and b["kind"] != "flat":
+                                MON.fail()
                             if v is None:
                                 return None          # mean gap 0 with a geometric kernel: the definition divides by 0
                         else:
@@ -347,7 +513,8 @@ def occurrences(p, radii):
                                 continue
                             k = abs(q - m)
                             for s2, t in enumerate(doc[q]):
-                                if k < b["off"] or (b["mask"] is not None and t == b["mask"]) or (q == m and s2 == s):
+                                # (a target that is the nullified mask has no contexts: its row is zero -- D31)
+                                if k < b["off"] or (b["mask"] is not None and (t == b["mask"] or tgt == b["mask"])) or (q == m and s2 == s):
                                     v = F(0)
                                 else:
                                     v = F(1) if b["kind"] == "flat" else b["power"] ** k
@@ -384,19 +551,36 @@ def nl(xs):
     return "[" + "; ".join(str(int(x)) for x in xs) + "]"
 
 
-def coq_block(b, radii, timed_table=None):
+MODEL_RADIUS_MAX = 2 ** 17
+
+
+def nl_radii(xs, cap):
+    """Radii are `nat`s in the model: up to 2^17 the model is evaluated at the true radius (unary numbers built inside
+    vm_compute by Z.to_nat); beyond, at cap = (longest sequence + 1), which gives the same windows
+    (C03_window_radius_saturates / C03_multi_window_radius_saturates)."""
+    def one(x):
+        x = int(x)
+        if x > MODEL_RADIUS_MAX:
+            x = max(cap, 1)
+        return str(x) if x <= 200 else "(Z.to_nat %d%%Z)" % x
+    return "[" + "; ".join(one(x) for x in xs) + "]"
+
+
+def coq_block(b, radii, timed_table=None, cap=1):
+    radii_txt = nl_radii(radii, cap)
     mask = "None" if b["mask"] is None else "(Some %d)" % b["mask"]
     if timed_table is not None:
         g = "(fun _ => 1%Qc)" if b["kind"] == "flat" else "(table_get [%s])" % "; ".join(
             "(%d%%Z, %s)" % (k, qc(v)) for k, v in sorted(timed_table.items()))
-        return "(mktblock %s %s %s %s %s %d %s)" % (C.coq_bool(b["rev"]), nl(radii), g, mask, C.coq_bool(b["norm"]), b["off"], qc(b["mix"]))
+        return "(mktblock %s %s %s %s %s %d %s)" % (C.coq_bool(b["rev"]), radii_txt, g, mask, C.coq_bool(b["norm"]), b["off"], qc(b["mix"]))
     kf = {"flat": "kf_flat", "harmonic": "kf_harmonic"}.get(b["kind"]) or "(kf_geometric %s)" % qc(b["power"])
-    return "(mkblock %s %s %s %s %s %d %s)" % (C.coq_bool(b["rev"]), nl(radii), kf, mask, C.coq_bool(b["norm"]), b["off"], qc(b["mix"]))
+    return "(mkblock %s %s %s %s %s %d %s)" % (C.coq_bool(b["rev"]), radii_txt, kf, mask, C.coq_bool(b["norm"]), b["off"], qc(b["mix"]))
 
 
 def coq_parts(p, radii):
     """(events driver, occurrence-list function, blocks, trailing arguments) of the Coq model call for this plan."""
     kind = p["kind"]
+    cap = max([len(d) for d in p["docs"]] or [0]) + 1
     if kind == "timed":
         tables = []
         for b in p["blocks"]:
@@ -409,10 +593,10 @@ def coq_parts(p, radii):
                             if dt not in tab:
                                 tab[dt] = timed_weight(b, dt, p["delta_mean"])
             tables.append(tab)
-        blocks = "[" + "; ".join(coq_block(b, radii[i], tables[i]) for i, b in enumerate(p["blocks"])) + "]"
+        blocks = "[" + "; ".join(coq_block(b, radii[i], tables[i], cap) for i, b in enumerate(p["blocks"])) + "]"
         docs = "[" + "; ".join("[" + "; ".join("(%d, %d%%Z)" % (t, k) for t, k in d) + "]" for d in p["docs"]) + "]"
         return "timed_events zabsdiff 0%Z", "timed_occs zabsdiff 0%Z", blocks, docs
-    blocks = "[" + "; ".join(coq_block(b, radii[i]) for i, b in enumerate(p["blocks"])) + "]"
+    blocks = "[" + "; ".join(coq_block(b, radii[i], None, cap) for i, b in enumerate(p["blocks"])) + "]"
     if kind == "token":
         return "token_events", "token_occs", blocks, "[" + "; ".join(nl(d) for d in p["docs"]) + "]"
     if kind == "ngram":
@@ -442,7 +626,7 @@ def is_exact(p, nw):
     for b in p["blocks"]:
         if b["norm"] or b["kind"] == "harmonic":
             return False
-        if b["kind"] == "geometric" and b["power"] not in (F(1, 2), F(1, 4)):
+        if b["kind"] == "geometric" and b["power"] not in (F(1, 2), F(1, 4), F(1)):
             return False
     return True
 
@@ -481,12 +665,54 @@ def nontrivial(p):
 
 def kind_key(case, p):
     kw = case["kw"]
-    return "%s:%s:%s%s%s" % (case["kind"], listify(kw.get("kernel_functions", "flat"), 1)[0], listify(kw.get("window_functions", "fixed"), 1)[0],
-                             ":mask" if kw.get("mask_string") else (":excl" if kw.get("excluded_tokens") else ""),
-                             ":nw" if kw.get("normalize_windows", True) else "")
+    big = max(listify(kw.get("window_radii", 5), 1)) >= 32768
+    return "%s:%s:%s%s%s%s%s%s" % (case["kind"], listify(kw.get("kernel_functions", "flat"), 1)[0], listify(kw.get("window_functions", "fixed"), 1)[0],
+                                   ":mask" if kw.get("mask_string") else (":excl" if kw.get("excluded_tokens") else ""),
+                                   ":nw" if kw.get("normalize_windows", True) else "", ":R>=2^15" if big else "",
+                                   "+past" if case.get("history") else "", "+then" if case.get("then") else "")
 
 
-def judge(ctx, case, res, model_val, stats, replay_mode=False):
+def past_note(case):
+    h = case.get("history")
+    return "" if not h else " [estimator with a past: %s on another corpus%s first]" % (
+        h.get("how", "fit_transform"), " + transform" if h.get("transform") is not None else "")
+
+
+def judge_then(ctx, case, p, radii, nw, got, model_val, stats):
+    """transform(Y) with the fitted estimator = the same definition on Y re-indexed by the fitted vocabulary, with the
+    fitted rows, radii and (timed) mean gap."""
+    if "err" in got:
+        ctx.report("transform after fit raised %s: %s%s" % (got["err"], got.get("msg", ""), past_note(case)),
+                   {"stage": "oracle", "case": case, "actual": got})
+        return None
+    q = plan_then(case, p)
+    if got["shape"] != [p["n_rows"], p["n"] * len(p["blocks"])]:
+        ctx.report("transform: shape %s, expected %s" % (got["shape"], [p["n_rows"], p["n"] * len(p["blocks"])]),
+                   {"stage": "oracle", "case": case})
+        return None
+    S = spec(q, radii, nw)
+    if S is None:
+        return None
+    exact = is_exact(q, nw) and float32_exact(q, S)
+    d = diff_matrix(S, got["triples"], exact)
+    if d is not None:
+        ctx.report("transform(%s) after fit differs from the windowed, kernel-weighted count definition over the fitted "
+                   "vocabulary (%s): %s%s" % ("X" if case["then"]["docs"] == "same" else "Y", "exact" if exact else "rel 2e-5", d,
+                                              past_note(case)),
+                   {"stage": "oracle", "case": case, "expected": sorted([k[0], k[1], float(v)] for k, v in S.items()),
+                    "actual": got["triples"]})
+        return None
+    stats["then_ok"] += 1
+    if model_val is None:
+        return None
+    Mm = model_matrix(model_val)
+    if Mm != S and not (p["kind"] == "timed" and all(abs(float(Mm.get(k, 0)) - float(S.get(k, 0))) <= 1e-12 for k in set(Mm) | set(S))):
+        return "transform: model (Coq) and SPEC differ: %s vs %s" % (str(sorted(Mm.items()))[:200], str(sorted(S.items()))[:200])
+    stats["then_corr"] += 1
+    return None
+
+
+def judge(ctx, case, res, model_val, stats, replay_mode=False, model_then=None):
     """Oracle + correspondence for one case.  Returns a correspondence-disagreement description or None."""
     p = plan_of(case)
     nw = bool(case["kw"].get("normalize_windows", True))
@@ -499,16 +725,23 @@ def judge(ctx, case, res, model_val, stats, replay_mode=False):
                        {"stage": "oracle", "case": case, "actual": res})
         return None
     if "err" in res:
-        ctx.report("implementation raised %s on a valid input: %s" % (res["err"], res.get("msg", "")),
+        ctx.report("implementation raised %s on a valid input: %s%s" % (res["err"], res.get("msg", ""), past_note(case)),
                    {"stage": "oracle", "case": case, "actual": res})
         return None
     out = res["ok"]
+    if case.get("history"):
+        stats["with_past"] += 1
     radii, problems = expected_radii(p, out["radii"])
+    state_problems = []        # fitted attributes that differ while no matrix is (yet) affected: reported last
     for pr in problems[:1]:
-        ctx.report("window radii differ from the window function: " + pr, {"stage": "oracle", "case": case, "actual": out["radii"]})
+        if p["variable"]:
+            ctx.report("window radii differ from the window function: " + pr + past_note(case),
+                       {"stage": "oracle", "case": case, "actual": out["radii"]})
+        else:
+            state_problems.append("window radii differ from the window function: " + pr)
     # vocabulary, rows, column blocks in the declared order
     if out["vocab"] != {str(k): v for k, v in p["vocab"].items()}:
-        ctx.report("token dictionary differs: expected %s, got %s" % (p["vocab"], out["vocab"]), {"stage": "oracle", "case": case})
+        ctx.report("token dictionary differs: expected %s, got %s%s" % (p["vocab"], out["vocab"], past_note(case)), {"stage": "oracle", "case": case})
         return None
     if out["cols"] != p["labels"]:
         ctx.report("column blocks are not in the declared (window, orientation) order: expected %s, got %s"
@@ -528,14 +761,29 @@ def judge(ctx, case, res, model_val, stats, replay_mode=False):
     stats["exact" if exact else "tolerance"] += 1
     d = diff_matrix(S, out["triples"], exact)
     if d is not None:
-        ctx.report("matrix differs from the windowed, kernel-weighted count definition (%s): %s"
-                   % ("exact" if exact else "rel 2e-5", d),
+        ctx.report("matrix differs from the windowed, kernel-weighted count definition (%s): %s%s"
+                   % ("exact" if exact else "rel 2e-5", d, past_note(case)),
                    {"stage": "oracle", "case": case, "expected": sorted([k[0], k[1], float(v)] for k, v in S.items()),
                     "actual": out["triples"]})
         return None
     stats["oracle_ok"] += 1
+    if p["kind"] == "timed" and case.get("history") and "delta_mean" in out and any(b["kind"] != "flat" for b in p["blocks"]):
+        # the mean gap handed to the timed geometric kernel is that of the corpus being fitted
+        dm = float(p["delta_mean"])
+        if abs(out["delta_mean"] - dm) > 1e-9 * max(1.0, abs(dm)):
+            state_problems.append("delta_mean_ = %r, the mean gap of the fitted corpus is %r" % (out["delta_mean"], dm))
+    d_then = None
+    if case.get("then") and "then" in out:
+        nv = len(ctx.violations)
+        d_then = judge_then(ctx, case, p, radii, nw, out["then"], model_then, stats)
+        if len(ctx.violations) > nv:
+            return None
+    if state_problems:
+        # the matrices of this input are as defined, but what the estimator keeps for later calls is not
+        # -> reported like a correspondence disagreement (only when no property-level failure is found in the run)
+        return "fitted state: " + state_problems[0] + past_note(case) + " (the matrices of this input are not affected)"
     if model_val is None:
-        return None
+        return d_then
     stats["corr"] += 1
     Mm = model_matrix(model_val)
     if Mm != S:
@@ -548,7 +796,7 @@ def judge(ctx, case, res, model_val, stats, replay_mode=False):
     if d is not None:
         return "model (Coq) and implementation differ: " + d
     p["exact"] = exact
-    return None
+    return d_then
 
 
 def shrink(case):
@@ -558,7 +806,7 @@ def shrink(case):
         out = []
         for c, r in zip(cs, rr or []):
             tmp = C.Ctx("C03", "quick", 0)
-            tmp.report = lambda *a, **k: tmp.violations.append(1)
+            tmp.report = lambda *a, **k: tmp.violations.append(1) if k.get("found_input", True) else None
             try:
                 judge(tmp, c, r, None, {k: 0 for k in STAT_KEYS})
             except Exception:
@@ -585,7 +833,7 @@ def shrink(case):
     return cur
 
 
-STAT_KEYS = ["expected_error", "undefined", "exact", "tolerance", "oracle_ok", "corr"]
+STAT_KEYS = ["expected_error", "undefined", "exact", "tolerance", "oracle_ok", "corr", "with_past", "then_ok", "then_corr"]
 
 
 N_JIT_QUICK, N_JIT_THOROUGH = 8, 160
@@ -627,6 +875,14 @@ def collect_compiled(jit_idx, futs):
     return jit, jit_info
 
 
+def mode_tie(case, a, b):
+    """Both radius tables are acceptable values of the variable window function (they differ only at rounding ties)."""
+    p = plan_of(case)
+    if "error" in p or not p["variable"]:
+        return False
+    return not expected_radii(p, a["ok"]["radii"])[1] and not expected_radii(p, b["ok"]["radii"])[1]
+
+
 def same_result(a, b):
     if ("ok" in a) != ("ok" in b):
         return False
@@ -635,7 +891,12 @@ def same_result(a, b):
     x, y = a["ok"], b["ok"]
     if any(x[k] != y[k] for k in ("shape", "vocab", "cols", "radii", "reversals")):
         return False
+    if ("then" in x) != ("then" in y) or ("then" in x and ("triples" in x["then"]) != ("triples" in y["then"])):
+        return False
     tx, ty = {(r, c): v for r, c, v in x["triples"]}, {(r, c): v for r, c, v in y["triples"]}
+    if "triples" in x.get("then", {}):
+        tx.update({("then", r, c): v for r, c, v in x["then"]["triples"]})
+        ty.update({("then", r, c): v for r, c, v in y["then"]["triples"]})
     return all(abs(tx.get(k, 0.0) - ty.get(k, 0.0)) <= REL * max(abs(tx.get(k, 0.0)), abs(ty.get(k, 0.0))) + ABS
                for k in set(tx) | set(ty))
 
@@ -682,6 +943,9 @@ def run(ctx, replay=None):
         if "events" in r["ok"]:
             exprs.append("show_events " + coq_events(p, radii, bool(c["kw"].get("normalize_windows", True))))
             idx.append(("ev", i))
+        if c.get("then") and "triples" in r["ok"].get("then", {}):
+            exprs.append(coq_expr(plan_then(c, p), radii, bool(c["kw"].get("normalize_windows", True))))
+            idx.append(("then", i))
     model = {}
     try:
         vals = C.coq_eval_sharded("C03", HEADER, exprs, shard=20, jobs=8)
@@ -691,11 +955,18 @@ def run(ctx, replay=None):
                    found_input=False)
     jit, jit_info = collect_compiled(jit_idx, futs)
     ex.shutdown()
+    n_mode_ties = 0
     for i, rj in sorted(jit.items()):
         if rj.get("err") == "crash":
             ctx.report("compiled-mode implementation child died: %s" % rj.get("msg", ""), {"stage": "impl-crash", "case": cases[i]})
             break
-        if not same_result(rj, impl[i]):
+        if "ok" in rj and "ok" in impl[i] and rj["ok"]["radii"] != impl[i]["ok"]["radii"] and mode_tie(cases[i], rj, impl[i]):
+            # a variable radius within 1e-6 of a rounding tie (e.g. exactly 1.5): numpy and numba round it differently;
+            # both tables agree with the window function, each mode is judged on its own table
+            n_mode_ties += 1
+            if "events" not in impl[i].get("ok", {}):
+                impl[i] = rj
+        elif not same_result(rj, impl[i]):
             ctx.report("compiled and interpreted execution differ: %s vs %s" % (str(rj)[:250], str(impl[i])[:250]),
                        {"stage": "oracle", "case": cases[i], "compiled": rj, "interpreted": impl[i]})
         elif "ok" in rj:
@@ -704,7 +975,8 @@ def run(ctx, replay=None):
             impl[i] = rj           # judge the compiled result where there is one
     ctx.coverage["modes"] = {"NUMBA_DISABLE_JIT=1": len(impl), "compiled": len(jit),
                              "compiled_wall_s": {k: v["wall_s"] for k, v in jit_info.items()},
-                             "compiled_budget_exhausted": sorted(k for k, v in jit_info.items() if v["rc"] == 124)}
+                             "compiled_budget_exhausted": sorted(k for k, v in jit_info.items() if v["rc"] == 124),
+                             "variable_radius_ties_rounded_differently_by_the_two_modes": n_mode_ties}
     stats = {k: 0 for k in STAT_KEYS}
     corr_bad = []
     before = len(ctx.violations)
@@ -712,7 +984,7 @@ def run(ctx, replay=None):
     n_ev_ok = 0
     for i, (c, r) in enumerate(zip(cases, impl)):
         nv = len(ctx.violations)
-        d = judge(ctx, c, r, model.get(i), stats)
+        d = judge(ctx, c, r, model.get(i), stats, model_then=model.get(("then", i)))
         if d is None and ("ev", i) in model and len(ctx.violations) == nv:
             d = diff_events(model[("ev", i)], r["ok"]["events"], plan_of(c), bool(c["kw"].get("normalize_windows", True)))
             n_ev_ok += d is None
@@ -728,10 +1000,17 @@ def run(ctx, replay=None):
                     judge(ctx, small, rr[0], None, {k: 0 for k in STAT_KEYS})
             except Exception:
                 pass
-    ctx.coverage["rule"] = ("random corpora (0-6 sequences incl. empty, lengths 0-12, alphabet 1-5) x vectorizer kind x radii 0-15 x "
-                            "orientations x fixed/variable windows x kernels x offset/normalize/power x mix weights x "
+    ctx.coverage["rule"] = ("random corpora (0-6 sequences incl. empty, lengths 0-12, alphabet 1-5) x vectorizer kind x radii 0-15 "
+                            "and (30% of the fixed-window cases) boundary radii 0, 1, len-1, len, len+1, 32767, 32768, 40000, "
+                            "65535, 65536, 70000, 2^31-1, 2^31, 2^32+7 x orientations x fixed/variable windows x kernels x "
+                            "offset (also = / > the window) / normalize / power (also 1.0) x mix weights (also 0 and 1024) x "
                             "normalize_windows x excluded/masked tokens x n-gram size 1-3 x timestamp shifts 0/1e3/1.6e9; "
+                            "40% of the cases on an estimator with a past (same object fitted on another corpus -- other "
+                            "vocabulary size, time scale x1/x16/x1024, runs of removed tokens, other n-grams -- and used for "
+                            "transform), 30% followed by transform(X | Y with unseen tokens) judged by the same definition; "
                             "non-trivial = some document with >= 2 tokens; distinct by case hash")
+    ctx.coverage["call_histories"] = {"fits_on_an_estimator_with_a_past": stats["with_past"],
+                                      "later_transforms_judged": stats["then_ok"], "later_transforms_in_coq": stats["then_corr"]}
     ctx.coverage["correspondence"] = {"cases": stats["corr"], "event_lists_equal_in_order": n_ev_ok, "disagreements": len(corr_bad),
                                       "model": "Model/K02_Windows.v + K03_Cooc.v on Qc via vm_compute (event list summed by key)"}
     ctx.coverage["oracle"] = {"cases": stats["oracle_ok"], "exact": stats["exact"], "tolerance_2e-5": stats["tolerance"],
@@ -743,7 +1022,11 @@ def run(ctx, replay=None):
                         "given to model and SPEC as data",
                         "timed geometric weights power**(delta/mean gap) are computed in floats by the harness and given to the "
                         "Coq model as a table; a mean gap of 0 with a geometric kernel is outside the definition (not judged)",
-                        "the accumulator (coo_append ... merge) is K1's: here matrix = sum of events by key"]
+                        "the accumulator (coo_append ... merge) is K1's: here matrix = sum of events by key",
+                        "radii above 2^17 are evaluated in the Coq model at (longest sequence + 1): same windows by "
+                        "C03_window_radius_saturates / C03_multi_window_radius_saturates; the SPEC oracle uses the true radius",
+                        "a fixed-window radius table (_window_len_array) is compared exactly with radius R per row (0 for a "
+                        "nullified mask)"]
     if corr_bad and not any(v["found_input"] for v in ctx.violations):
         c, d = corr_bad[0]
         ctx.report("model K02/K03 and implementation disagree (no property-level failure found): " + d,
